@@ -585,6 +585,24 @@ def explicit_cases():
                                         {"stages": [pup("prb0", {"t": "ignorer", "code": 0}, args=["$V", "$?"])], "probe": True}],
               "externals": [], "faults": {}, "files": {}, "config": "stderr_volume_explicit", "adversarial_picks": 30}
         cases.append(plines.LineRunner.rebuild(sc))
+    # the inner command closes its stdout long before it is done and reports on stderr afterwards: the shell
+    # has to keep the stderr capture open until the command is gone (no EPIPE/SIGPIPE for the command), the
+    # word is what was written before the close, and the command's own status is seen (round 7)
+    for ci, (late, code, spelling) in enumerate(((b"late progress\n", 0, "$(pup e0i)"), (b"late progress\n", 3, "`pup e0i`"),
+                                                 (None, 0, "$(pup e0i)"), (None, 3, "`pup e0i`"))):
+        ws = [{"fd": 1, "hex": b"text\n".hex()}, {"fd": 1, "close": True},
+              {"fd": 2, "hex": late.hex()} if late else {"fd": 2, "n": 70000, "seed": 7200 + ci, "printable": True},
+              {"fd": 2, "hex": b"done\n".hex()}]
+        inner = [pup("e0i", {"t": "talker", "writes": ws, "code": code, "chunk": 65536})]
+        subs = [{"inner": inner, "kind": "text", "pre": "p", "post": "q", "text": spelling}]
+        outer = [pup("eo", {"t": "ignorer", "code": 0}, args=["p" + spelling + "q"])]
+        l = {"probe": False, "subs": subs, "form": "argv", "same_word": True, "dones": 1, "stages": outer,
+             "groups": [{"stages": inner, "capture": True}, {"stages": outer, "capture": False}]}
+        sc = {"prop": "C11", "lines": [{"stages": [{"kind": "assign", "text": "V=val1"}], "probe": False, "raw": True,
+                                         "text": "V=val1"}, l,
+                                        {"stages": [pup("prb0", {"t": "ignorer", "code": 0}, args=["$V", "$?"])], "probe": True}],
+              "externals": [], "faults": {}, "files": {}, "config": "stdout_closed_early_explicit", "adversarial_picks": 30}
+        cases.append(plines.LineRunner.rebuild(sc))
     for first_fd, burst in ((1, 4096), (2, 4096), (1, 8192), (1, 65536)):
         other = 2 if first_fd == 1 else 1
         ws = [{"fd": first_fd, "n": burst, "seed": 7300 + burst, "printable": True},
